@@ -13,3 +13,4 @@ import Woodpile.Proofs.IovecFrame
 import Woodpile.Props.C20
 import Woodpile.Proofs.IovecArena
 import Woodpile.Proofs.IovecHeap
+import Woodpile.Proofs.IovecFootprint
